@@ -60,6 +60,27 @@ func blobStateMap(idleLimit, busyLimit int) protocol.StateMap {
 	}
 }
 
+// blobShift moves the conversation from Idle to Idle2: a second state in which the
+// client still has agency but which declares a different byte limit.
+const blobShift uint8 = 5
+
+var blobIdle2 = protocol.NewState(4, "Idle2")
+
+// blobStateMap2 is blobStateMap(l1, l1) plus Idle --Shift--> Idle2 (client agency,
+// limit l2) --C2S--> Idle2.
+func blobStateMap2(l1, l2 int) protocol.StateMap {
+	sm := blobStateMap(l1, l1)
+	idle := sm[blobIdle]
+	idle.Transitions = append(append([]protocol.StateTransition(nil), idle.Transitions...), protocol.StateTransition{MsgType: blobShift, NewState: blobIdle2})
+	sm[blobIdle] = idle
+	sm[blobIdle2] = protocol.StateMapEntry{
+		Agency:                  protocol.AgencyClient,
+		PendingMessageByteLimit: l2,
+		Transitions:             []protocol.StateTransition{{MsgType: blobC2S, NewState: blobIdle2}},
+	}
+	return sm
+}
+
 // blobMsg implements protocol.Message. raw is the exact wire encoding; when
 // lazy is set Cbor() is nil until the engine encodes the message through
 // MarshalCBOR and caches the result with SetCbor (the path real messages built
@@ -205,6 +226,25 @@ type blobProto struct {
 	handled  [][]byte // msg.Cbor() when the handler ran
 	types    []uint8
 	onHandle func(i int, m *blobMsg) error // optional, runs inside the handler (after recording)
+	cfg      protocol.ProtocolConfig       // kept for restarts
+	scribble bool                          // overwrite the received message's bytes after recording them
+	restarts int
+}
+
+// restart stops the protocol instance and starts a fresh one with the same
+// configuration on the same muxer (what blockfetch.Server does on ClientDone and
+// what every client Stop()/Start() cycle does). The recorders carry on.
+func (bp *blobProto) restart(stall <-chan struct{}) bool {
+	bp.P.Stop()
+	select {
+	case <-bp.P.DoneChan():
+	case <-stall:
+		return false
+	}
+	bp.P = protocol.New(bp.cfg)
+	bp.P.Start()
+	bp.restarts++
+	return true
 }
 
 func (bp *blobProto) fromCbor(msgType uint, data []byte) (protocol.Message, error) {
@@ -228,7 +268,14 @@ func (bp *blobProto) handle(msg protocol.Message) error {
 	bp.types = append(bp.types, m.Type())
 	bp.cond.Broadcast()
 	f := bp.onHandle
+	scribble := bp.scribble
 	bp.mu.Unlock()
+	if scribble {
+		// the message object is the receiver's now: nothing else may depend on its bytes
+		for i := range m.raw {
+			m.raw[i] = ^m.raw[i]
+		}
+	}
 	if f != nil {
 		return f(i, m)
 	}
@@ -253,12 +300,14 @@ type blobSide struct {
 	mux    *muxer.Muxer
 	errCh  chan error
 	protos []*blobProto
+	duplex bool // protocol instances of both roles live on this muxer
 }
 
 type blobProtoSpec struct {
 	id        uint16
 	stateMap  protocol.StateMap
 	recvQueue int
+	role      protocol.ProtocolRole // 0 = the side's role
 }
 
 // newBlobSide builds a muxer on conn and one protocol.Protocol per spec, wired
@@ -268,21 +317,29 @@ func newBlobSide(conn net.Conn, role protocol.ProtocolRole, recordReads bool, sp
 	s.conn = &tapConn{Conn: conn, recordReads: recordReads}
 	s.mux = muxer.New(s.conn)
 	for _, sp := range specs {
-		bp := &blobProto{id: sp.id, role: role}
+		prole := role
+		if sp.role != protocol.ProtocolRoleNone {
+			prole = sp.role
+		}
+		if prole != role {
+			s.duplex = true
+		}
+		bp := &blobProto{id: sp.id, role: prole}
 		bp.cond = sync.NewCond(&bp.mu)
-		bp.P = protocol.New(protocol.ProtocolConfig{
+		bp.cfg = protocol.ProtocolConfig{
 			Name:                fmt.Sprintf("blob-%d", sp.id),
 			ProtocolId:          sp.id,
 			ErrorChan:           s.errCh,
 			Muxer:               s.mux,
 			Mode:                protocol.ProtocolModeNodeToNode,
-			Role:                role,
+			Role:                prole,
 			MessageHandlerFunc:  bp.handle,
 			MessageFromCborFunc: bp.fromCbor,
 			StateMap:            sp.stateMap,
 			InitialState:        blobIdle,
 			RecvQueueSize:       sp.recvQueue,
-		})
+		}
+		bp.P = protocol.New(bp.cfg)
 		s.protos = append(s.protos, bp)
 	}
 	return s
@@ -292,7 +349,9 @@ func (s *blobSide) start() {
 	for _, bp := range s.protos {
 		bp.P.Start()
 	}
-	if s.role == protocol.ProtocolRoleClient {
+	if s.duplex {
+		s.mux.SetDiffusionMode(muxer.DiffusionModeInitiatorAndResponder)
+	} else if s.role == protocol.ProtocolRoleClient {
 		s.mux.SetDiffusionMode(muxer.DiffusionModeInitiator)
 	} else {
 		s.mux.SetDiffusionMode(muxer.DiffusionModeResponder)
